@@ -235,9 +235,15 @@ def c02_aerostruct(rng, tier):
     lin = ["lbgs", "krylov", "direct"][_o.CURRENT_K % 3]       # every solver is exercised in both modes in every run
     rng.choice(["direct", "lbgs", "krylov"])                    # (keeps the random stream of earlier versions)
     import openmdao.api as om
+    compressible = bool(rng.integers(2)); rotational = bool(rng.integers(2))
+    if rotational:
+        flow["omega"] = np.array([0.0, 0.03, 0.0]) if s["symmetry"] else rng.normal(size=3) * 0.03
+    _build = pipelines.build_aerostruct
+    def build_as(surfs, flows, **kw):
+        return _build(surfs, flows, compressible=compressible, rotational=rotational, **kw)
     res = {}; nonconv = {}
     for mode in ("fwd", "rev"):
-        p = pipelines.build_aerostruct([s], [flow], linear=lin, mode=mode)
+        p = build_as([s], [flow], linear=lin, mode=mode)
         with quiet():
             p.run_model()
             try:
@@ -246,7 +252,8 @@ def c02_aerostruct(rng, tier):
                 nonconv[mode] = str(ex)[:200]
     out = []
     case = dict(ny=s["mesh"].shape[1], symmetry=s["symmetry"], linear_solver=lin, weight_relief=relief, load_factor=flow["load_factor"],
-                k_lam=s.get("k_lam"), S_ref_type=s.get("S_ref_type"), fem_model_type=s["fem_model_type"])
+                k_lam=s.get("k_lam"), S_ref_type=s.get("S_ref_type"), fem_model_type=s["fem_model_type"], compressible=compressible,
+                rotational=rotational)
     if nonconv:
         if lin == "lbgs" and len(nonconv) == 1:
             # the block Gauss-Seidel iterations of the two modes act on transposed systems (same spectrum): when one mode converges
@@ -255,7 +262,7 @@ def c02_aerostruct(rng, tier):
             m = list(nonconv)[0]
             pipelines.LBGS_MAXITER = 3000
             try:
-                p = pipelines.build_aerostruct([s], [flow], linear=lin, mode=m)
+                p = build_as([s], [flow], linear=lin, mode=m)
                 with quiet():
                     p.run_model()
                     try:
@@ -281,7 +288,7 @@ def c02_aerostruct(rng, tier):
     Jref = res["fwd"]
     # direct solver reference
     if lin != "direct":
-        p = pipelines.build_aerostruct([s], [flow], linear="direct", mode="fwd")
+        p = build_as([s], [flow], linear="direct", mode="fwd")
         with quiet():
             p.run_model(); Jd = p.compute_totals(of=ofs, wrt=wrt, return_format="array")
         Jref = Jd          # the finite-difference comparison below uses the directly solved totals
@@ -289,7 +296,7 @@ def c02_aerostruct(rng, tier):
         if not ok:
             out.append(_fail("totals depend on the linear solver attached to the coupled group", msg, "equal", **case))
     # finite differences of the converged analysis for a few scalar inputs
-    p = pipelines.build_aerostruct([s], [flow], linear="direct")
+    p = build_as([s], [flow], linear="direct")
     def f(name, val):
         p.set_val(name, val)
         with quiet():
@@ -384,10 +391,17 @@ def c12_fixed_point(rng, tier):
         t["fem_origin"] = float(np.clip(s["fem_origin"] + rng.choice([-0.2, 0.25]), 0.05, 0.9))
         surfs.append(t)
     flow = _as_flow(rng, beta=float(rng.choice([0.0, 0.0, 4.0])) if not any(x["symmetry"] for x in surfs) else 0.0)
+    # options of the point the pinned tests never combine with a coupled analysis
+    compressible = bool(rng.integers(2)); rotational = bool(rng.integers(2))
+    if rotational:
+        om_ = rng.normal(size=3) * 0.05
+        if any(x["symmetry"] for x in surfs):
+            om_[[0, 2]] = 0.0
+        flow["omega"] = om_; flow["cg_rot"] = np.zeros(3)
     outs = {}
     combos = [("nlbgs", True), ("nlbgs", False), ("newton", True)]
     for nl, ait in combos:
-        p = pipelines.build_aerostruct(surfs, [flow], nonlinear=nl, aitken=ait)
+        p = pipelines.build_aerostruct(surfs, [flow], nonlinear=nl, aitken=ait, compressible=compressible, rotational=rotational)
         with quiet():
             p.run_model()
         outs[(nl, ait)] = p
@@ -396,7 +410,8 @@ def c12_fixed_point(rng, tier):
                               + [np.array(p.get_val("AS_point_0.coupled.wing.disp")).ravel() * 1e3])
     ref = vec(outs[("nlbgs", True)])
     out = []
-    case = dict(ny=[x["mesh"].shape[1] for x in surfs], symmetry=[x["symmetry"] for x in surfs], beta=flow["beta"], load_factor=flow["load_factor"])
+    case = dict(ny=[x["mesh"].shape[1] for x in surfs], symmetry=[x["symmetry"] for x in surfs], beta=flow["beta"], load_factor=flow["load_factor"],
+                compressible=compressible, rotational=rotational)
     for k, p in outs.items():
         if relerr(vec(p), ref) > 1e-6:
             out.append(_fail("converged state depends on the nonlinear solver %s" % (k,), vec(p)[:6], ref[:6], **case))
@@ -415,14 +430,14 @@ def c12_fixed_point(rng, tier):
         dms.append(dm)
     # the flow about the deformed meshes (independent aero analysis at the same flight condition) gives the same forces
     sa = [dict(aero_surface(x["name"], x["mesh"], x["symmetry"]), S_ref_type=x["S_ref_type"]) for x in surfs]
-    pa = pipelines.run_aero_point(sa, dict(flow, cg=np.zeros(3)), meshes=dms)
+    pa = pipelines.run_aero_point(sa, dict(flow, cg=np.zeros(3)), meshes=dms, compressible=compressible, rotational=rotational)
     for x in surfs:
         Fa = np.array(pa.get_val("pt.aero_states.%s_sec_forces" % x["name"])); F = np.array(p.get_val("AS_point_0.coupled.aero_states.%s_sec_forces" % x["name"]))
         if relerr(Fa, F) > 1e-6:
             out.append(_fail("converged aerodynamic forces are not those of the flow about the deformed mesh at the point's flight condition",
                              F[0, :2], Fa[0, :2], surface=x["name"], **case))
     # path independence: visit another design point first
-    p2 = pipelines.build_aerostruct(surfs, [flow])
+    p2 = pipelines.build_aerostruct(surfs, [flow], compressible=compressible, rotational=rotational)
     with quiet():
         p2.set_val("alpha", flow["alpha"] + 3.0); p2.set_val(_thk(s)[0], _thk(s)[1] * 0.6); p2.run_model()
         p2.set_val("alpha", flow["alpha"]); p2.set_val(_thk(s)[0], _thk(s)[1]); p2.run_model()
@@ -430,7 +445,7 @@ def c12_fixed_point(rng, tier):
         out.append(_fail("converged state depends on the previously analysed design point", vec(p2)[:6], ref[:6], **case))
     # ... and one that differs in a single flight-condition input only (the structure and the meshes stay what they were)
     for name, other in (("load_factor", flow["load_factor"] * 0.4 + 0.3), ("v", flow["v"] * 1.3), ("rho", flow["rho"] * 0.7)):
-        p3 = pipelines.build_aerostruct(surfs, [flow])
+        p3 = pipelines.build_aerostruct(surfs, [flow], compressible=compressible, rotational=rotational)
         with quiet():
             p3.set_val(name, other); p3.run_model()
             p3.set_val(name, flow[name]); p3.run_model()
